@@ -103,9 +103,36 @@ func VerifHarness_RequestOutcomes() {
 	}
 	before := w.pl.connectedServer_
 	target := w.servers[zz.Choose(2)] // lobby (possibly the current one) or game
+	// a pre-connect subscriber may leave the request alone, deny it, or send it elsewhere
+	redirect := zz.Choose(4)
+	final := target
+	w.ev.onFire = func(e event.Event) {
+		if pe, ok := e.(*ServerPreConnectEvent); ok {
+			switch redirect {
+			case 1:
+				pe.Deny()
+			case 2:
+				pe.Allow(w.servers[0]) // to lobby (possibly the current server)
+			case 3:
+				pe.Allow(w.servers[2])
+			}
+		}
+	}
+	switch redirect {
+	case 2:
+		final = w.servers[0]
+	case 3:
+		final = w.servers[2]
+	}
 	res, err := w.pl.createConnectionRequest(target).internalConnect(context.Background())
 	preConnects, _ := zzCountEvents16[*ServerPreConnectEvent](w.ev)
 	switch {
+	case !(inflight != nil || (cur != nil && !joined)) && cur != target && redirect == 1:
+		zz.Assert(err == nil && res.Status() == CanceledConnectionStatus && len(w.attempts) == 0 && w.pl.connInFlight == nil && w.pl.connectedServer_ == before, "a request a subscriber denied was not cancelled without side effects")
+		zz.Reach("denied")
+	case !(inflight != nil || (cur != nil && !joined)) && cur != target && final == cur:
+		zz.Assert(err == nil && res.Status() == AlreadyConnectedConnectionStatus && len(w.attempts) == 0 && w.pl.connInFlight == nil && w.pl.connectedServer_ == before, "a request redirected to the current server was not reported as already connected without an attempt")
+		zz.Reach("redirected-to-current")
 	case inflight != nil || (cur != nil && !joined):
 		zz.Assert(err == nil && res.Status() == InProgressConnectionStatus, "a request while a connection attempt is in flight was not reported as in progress")
 		zz.Assert(len(w.attempts) == 0 && preConnects == 0 && w.pl.connInFlight == inflight && w.pl.connectedServer_ == before, "a request reported as in progress had side effects")
@@ -115,7 +142,7 @@ func VerifHarness_RequestOutcomes() {
 		zz.Assert(len(w.attempts) == 0 && preConnects == 0 && w.pl.connInFlight == nil && w.pl.connectedServer_ == before, "a request reported as already connected had side effects")
 		zz.Reach("already-connected")
 	default:
-		zz.Assert(len(w.attempts) == 1 && w.attempts[0].server == target && preConnects == 1, "a permitted request did not make exactly one attempt to the requested server")
+		zz.Assert(len(w.attempts) == 1 && w.attempts[0].server == final && preConnects == 1, "a permitted request did not make exactly one attempt to the requested (or redirected) server")
 		zz.Assert(w.slotOK, "the in-flight slot did not hold the attempt while it was running")
 		zz.Assert(w.pl.connInFlight == nil, "the in-flight slot was not freed when the attempt ended")
 		zz.Assert(w.pl.connectedServer_ == before, "the attempt itself changed the current server (only the join-game transition may)")
@@ -148,6 +175,54 @@ func VerifHarness_ConcurrentRequestsOneInFlight() {
 		zz.Assert(len(w.attempts) == 2, "a request made no attempt although nothing was in flight")
 		zz.Reach("one-after-the-other")
 	}
+}
+
+// An attempt whose request ran out of time before the backend's join-game arrived is abandoned: the
+// request is told it failed, the backend connection of the attempt is closed, and a join-game that
+// arrives late does not move the player.
+func VerifHarness_TimedOutAttemptIsAbandoned() {
+	zz.MaxPreempt(2)
+	w := zzNewSwitchWorld()
+	client := w.pl.MinecraftConn.(*zzConn)
+	client.protocol = 763
+	w.pl.tabList = internaltablist.New(w.pl)
+	w.pl.profile = &profile.GameProfile{Name: "alice"}
+	w.pl.clientsideChannels = sets.NewCappedSet[string](maxClientsidePluginChannels)
+	w.px.channelRegistrar = message.NewChannelRegistrar()
+	lobby, game := w.servers[0], w.servers[1]
+	playH := &clientPlaySessionHandler{player: w.pl, log: logr.Discard(), log1: logr.Discard()}
+	playH.spawned.Store(true)
+	client.handler = playH
+	old := newServerConnection(lobby, nil, w.pl)
+	oldConn := newZZConn(763, state.Play)
+	old.connection, old.connPhase = oldConn, phase.VanillaBackendPhase
+	old.completedJoin.Store(true)
+	w.pl.connectedServer_ = old
+	dest := newServerConnection(game, lobby, w.pl)
+	newConn := newZZConn(763, state.Play)
+	dest.connection = newConn
+	w.pl.connInFlight = dest
+	ctx, cancel := context.WithCancel(context.Background())
+	results := make(chan *connResponse, 1)
+	th := &backendTransitionSessionHandler{eventMgr: w.ev, serverConn: dest, requestCtx: &connRequestCxt{Context: ctx, response: results},
+		bungeeCordMessageRecorder: bungeecord.NopMessageResponder, log: logr.Discard()}
+	th.Activated()
+	cancel() // the request's deadline passes
+	zz.WaitAll()
+	select {
+	case r := <-results:
+		zz.Assert(r != nil && r.error != nil, "a request that ran out of time was not told that it failed")
+	default:
+		zz.Assert(false, "a request that ran out of time got no result")
+	}
+	w.pl.resetInFlightConnection() // what the request's caller does with a failed result
+	// the join-game arrives after all
+	jg := &packet.JoinGame{EntityID: 9}
+	th.HandlePacket(&proto.PacketContext{Direction: proto.ClientBound, Protocol: 763, Packet: jg, Payload: []byte{0x28}})
+	zz.Assert(newConn.closed > 0, "the backend connection of an abandoned attempt was left open")
+	zz.Assert(w.pl.connectedServer() == old && oldConn.closed == 0, "a join-game that arrived after the request had failed moved the player (or closed its real backend)")
+	zz.Assert(client.closed == 0, "the player was disconnected by an abandoned attempt")
+	zz.Reach("abandoned")
 }
 
 func zzCountEvents16[T any](ev *zzEvents) (n int, last T) {
